@@ -173,9 +173,9 @@ def extract_repo(release=False):
     """Facts for /repo's own workspace (all targets)."""
     if release:
         return extract("repo-rel", REPO, ["--workspace", "--all-targets"], REPO_EXPECT,
-                       rustflags="-C debug-assertions=off -C overflow-checks=off", extern="lyon_geom::",
+                       rustflags="-C debug-assertions=off -C overflow-checks=off", extern="lyon_geom::,euclid::point::",
                        member_prefixes=REPO_MEMBERS)
-    return extract("repo", REPO, ["--workspace", "--all-targets"], REPO_EXPECT, extern="lyon_geom::",
+    return extract("repo", REPO, ["--workspace", "--all-targets"], REPO_EXPECT, extern="lyon_geom::,euclid::point::",
                    member_prefixes=REPO_MEMBERS)
 
 
